@@ -5,14 +5,66 @@ package main
 import (
 	"bytes"
 	"fmt"
+	"reflect"
 	"sort"
 	"strings"
 
 	"github.com/icon-project/goloop/common/crypto"
 	"github.com/icon-project/goloop/common/db"
 	"github.com/icon-project/goloop/common/merkle"
+	"github.com/icon-project/goloop/common/trie"
 	"github.com/icon-project/goloop/common/trie/ompt"
 )
+
+// ---- object values: a trie value is either inline data (0x02 ++ bytes) or a reference
+// (0x01 ++ sha3(blob)) to a blob kept in the BytesByHash bucket, which Resolve requests ----
+
+type c20Obj struct {
+	data []byte
+	blob []byte
+	bk   db.Bucket
+}
+
+var c20ObjType = reflect.TypeOf((*c20Obj)(nil))
+
+func c20ValRef(v []byte) []byte {
+	if len(v) == 33 && v[0] == 0x01 {
+		return v[1:]
+	}
+	return nil
+}
+
+func (o *c20Obj) Bytes() []byte { return o.data }
+func (o *c20Obj) Reset(s db.Database, k []byte) error {
+	bk, err := s.GetBucket(db.BytesByHash)
+	if err != nil {
+		return err
+	}
+	o.bk = bk
+	o.data = append([]byte{}, k...)
+	return nil
+}
+func (o *c20Obj) Flush() error {
+	if o.blob != nil && o.bk != nil {
+		return o.bk.Set(crypto.SHA3Sum256(o.blob), o.blob)
+	}
+	return nil
+}
+func (o *c20Obj) Equal(n trie.Object) bool {
+	o2, ok := n.(*c20Obj)
+	return ok && o2 != nil && bytes.Equal(o.data, o2.data)
+}
+func (o *c20Obj) Resolve(b merkle.Builder) error {
+	if h := c20ValRef(o.data); h != nil {
+		if v, _ := o.bk.Get(h); v == nil {
+			b.RequestData(db.BytesByHash, h, o)
+		}
+	}
+	return nil
+}
+func (o *c20Obj) OnData(v []byte, b merkle.Builder) error { return nil }
+func (o *c20Obj) ClearCache()                             {}
+
 
 func init() {
 	Register(&Prop{ID: "C20", Gen: c20Gen, New: func() Runner { return &c20Runner{} }})
@@ -110,8 +162,50 @@ func c20Refs(payload []byte) ([][]byte, bool) {
 	return refs, true
 }
 
-func c20RefsWire(payload []byte) string {
+// c20ItemBytes returns the content of a string item, nil if it is a list.
+func c20ItemBytes(it []byte) []byte {
+	if len(it) == 0 || it[0] >= 0xc0 {
+		return nil
+	}
+	h, l, ok := c20Hdr(it)
+	if !ok || h+l != len(it) {
+		return nil
+	}
+	return it[h:]
+}
+
+// c20RefsObj: as c20Refs plus, after the children, the blob referenced by the node's own value
+// (branch value / leaf value); a blob payload (first byte 0x00) has no refs.
+func c20RefsObj(payload []byte) ([][]byte, bool) {
+	if len(payload) > 0 && payload[0] == 0x00 {
+		return nil, true
+	}
 	refs, ok := c20Refs(payload)
+	if !ok {
+		return nil, false
+	}
+	items, _ := c20Items(payload)
+	switch len(items) {
+	case 17:
+		if h := c20ValRef(c20ItemBytes(items[16])); h != nil {
+			refs = append(refs, h)
+		}
+	case 2:
+		hdr := c20ItemBytes(items[0])
+		if len(hdr) > 0 && hdr[0]&0x20 != 0 {
+			if h := c20ValRef(c20ItemBytes(items[1])); h != nil {
+				refs = append(refs, h)
+			}
+		}
+	}
+	return refs, true
+}
+
+func c20RefsWire(payload []byte, obj bool) string {
+	refs, ok := c20Refs(payload)
+	if obj {
+		refs, ok = c20RefsObj(payload)
+	}
 	if !ok {
 		return "X"
 	}
@@ -160,30 +254,58 @@ func (b *c20RecBucket) Set(k, v []byte) error {
 
 type c20Source struct {
 	pairs map[string][]byte
-	nodes map[string][]byte // hash -> payload, every node reachable from root
+	nodes map[string][]byte // hash -> payload, every node reachable from root (and, in object mode, every referenced blob)
+	blobs map[string][]byte // hash -> blob (object mode)
 	root  []byte
 }
 
-func c20BuildSource(pairs map[string][]byte) *c20Source {
+// blobs: candidate blobs by hash; a value 0x01++h refers to blobs[h]
+func c20BuildSource(pairs map[string][]byte, obj bool, blobs map[string][]byte) *c20Source {
 	rec := &c20RecDB{Database: db.NewMapDB(), sets: map[db.BucketID]map[string][]byte{}}
-	mt := ompt.NewMutable(rec, nil)
 	keys := make([]string, 0, len(pairs))
 	for k := range pairs {
 		keys = append(keys, k)
 	}
 	sort.Strings(keys)
-	for _, k := range keys {
-		if _, err := mt.Set([]byte(k), pairs[k]); err != nil {
+	var root []byte
+	if obj {
+		mt := ompt.NewMutableForObject(rec, nil, c20ObjType)
+		bk, _ := rec.GetBucket(db.BytesByHash)
+		for _, k := range keys {
+			v := pairs[k]
+			o := &c20Obj{data: v, bk: bk}
+			if h := c20ValRef(v); h != nil {
+				o.blob = blobs[string(h)]
+			}
+			if _, err := mt.Set([]byte(k), o); err != nil {
+				panic(err)
+			}
+		}
+		ss := mt.GetSnapshot()
+		if err := ss.Flush(); err != nil {
 			panic(err)
 		}
+		root = ss.Hash()
+	} else {
+		mt := ompt.NewMutable(rec, nil)
+		for _, k := range keys {
+			if _, err := mt.Set([]byte(k), pairs[k]); err != nil {
+				panic(err)
+			}
+		}
+		ss := mt.GetSnapshot()
+		if err := ss.Flush(); err != nil {
+			panic(err)
+		}
+		root = ss.Hash()
 	}
-	ss := mt.GetSnapshot()
-	if err := ss.Flush(); err != nil {
-		panic(err)
+	s := &c20Source{pairs: pairs, nodes: map[string][]byte{}, blobs: map[string][]byte{}, root: root}
+	for k, v := range rec.sets[db.MerkleTrie] {
+		s.nodes[k] = v
 	}
-	s := &c20Source{pairs: pairs, nodes: rec.sets[db.MerkleTrie], root: ss.Hash()}
-	if s.nodes == nil {
-		s.nodes = map[string][]byte{}
+	for k, v := range rec.sets[db.BytesByHash] {
+		s.nodes[k] = v
+		s.blobs[k] = v
 	}
 	return s
 }
@@ -203,29 +325,77 @@ func c20Key(g *Gen) []byte {
 func c20Gen(g *Gen) {
 	for c := 0; c < g.N; c++ {
 		g.Emit("reset")
+		obj := g.Intn(5) < 2 // object-valued trie whose values may refer to blobs (as accounts refer to storage/code)
 		np := g.Pick(0, 1, 2, 3, 5, 8, 13, 30, 60)
 		if g.Tier == "thorough" && g.Intn(4) == 0 {
 			np = 100 + g.Intn(300)
 		}
 		pairs := map[string][]byte{}
+		blobs := map[string][]byte{}
+		var blobOrder [][]byte
 		for i := 0; i < np; i++ {
-			v := g.Bytes(g.Pick(1, 1, 2, 5, 20, 31, 32, 33, 40, 70))
-			pairs[string(c20Key(g))] = v
-		}
-		for k, v := range pairs {
-			_ = k
-			_ = v
+			k := c20Key(g)
+			if obj && i > 0 && g.Intn(3) == 0 {
+				// a key extending a stored key puts the shorter key's value on a branch node
+				keys := make([]string, 0, len(pairs))
+				for kk := range pairs {
+					keys = append(keys, kk)
+				}
+				sort.Strings(keys)
+				base := keys[g.Intn(len(keys))]
+				k = append([]byte(base), g.Bytes(1+g.Intn(2))...)
+			}
+			var v []byte
+			if obj {
+				if g.Intn(3) > 0 {
+					var blob []byte
+					if len(blobOrder) > 0 && g.Intn(5) == 0 {
+						blob = blobOrder[g.Intn(len(blobOrder))] // shared blob
+					} else {
+						blob = append([]byte{0x00}, g.Bytes(g.Pick(1, 8, 40, 100))...)
+						blobOrder = append(blobOrder, blob)
+					}
+					h := crypto.SHA3Sum256(blob)
+					blobs[string(h)] = blob
+					v = append([]byte{0x01}, h...)
+				} else {
+					v = append([]byte{0x02}, g.Bytes(g.Pick(0, 1, 5, 20, 40))...)
+				}
+			} else {
+				v = g.Bytes(g.Pick(1, 1, 2, 5, 20, 31, 32, 33, 40, 70))
+			}
+			pairs[string(k)] = v
 		}
 		keys := make([]string, 0, len(pairs))
 		for k := range pairs {
 			keys = append(keys, k)
 		}
 		sort.Strings(keys)
+		if obj {
+			for _, b := range blobOrder {
+				g.Emit("blob %s", hx(b))
+			}
+		}
 		for _, k := range keys {
 			g.Emit("src %s %s", hx([]byte(k)), hx(pairs[k]))
 		}
-		src := c20BuildSource(pairs)
-		g.Emit("begin %s", hx(src.root))
+		src := c20BuildSource(pairs, obj, blobs)
+		if obj {
+			g.Emit("begin-obj %s", hx(src.root))
+		} else {
+			g.Emit("begin %s", hx(src.root))
+		}
+		refsOf := c20Refs
+		if obj {
+			refsOf = c20RefsObj
+		}
+		emitData := func(p []byte) {
+			if _, isBlob := src.blobs[string(crypto.SHA3Sum256(p))]; isBlob {
+				g.Emit("datab %s", hx(p))
+			} else {
+				g.Emit("data %s", hx(p))
+			}
+		}
 		// frontier computed with the harness's own parser, independent of the builder
 		frontier := [][]byte{}
 		inFrontier := map[string]bool{}
@@ -246,13 +416,17 @@ func c20Gen(g *Gen) {
 			}
 			switch g.Intn(10) {
 			case 0: // forged / arbitrary payload
-				g.Emit("data %s", hx(g.Bytes(g.Pick(1, 5, 33, 60))))
+				if g.Intn(2) == 0 {
+					g.Emit("data %s", hx(g.Bytes(g.Pick(1, 5, 33, 60))))
+				} else {
+					g.Emit("datab %s", hx(g.Bytes(g.Pick(1, 5, 33, 60))))
+				}
 				continue
 			case 1: // genuine node that is not (or no longer) requested: duplicate or premature
 				if len(allHashes) > 0 {
 					h := allHashes[g.Intn(len(allHashes))]
 					if !inFrontier[h] {
-						g.Emit("data %s", hx(src.nodes[h]))
+						emitData(src.nodes[h])
 					}
 				}
 				continue
@@ -272,8 +446,8 @@ func c20Gen(g *Gen) {
 			delete(inFrontier, string(h))
 			done[string(h)] = true
 			p := src.nodes[string(h)]
-			g.Emit("data %s", hx(p))
-			refs, _ := c20Refs(p)
+			emitData(p)
+			refs, _ := refsOf(p)
 			for _, r := range refs {
 				if !done[string(r)] && !inFrontier[string(r)] {
 					frontier = append(frontier, r)
@@ -288,6 +462,8 @@ func c20Gen(g *Gen) {
 // ---- implementation runner ----
 
 type c20Runner struct {
+	obj     bool
+	blobs   map[string][]byte
 	pairs   map[string][]byte
 	src     *c20Source
 	dst     *c20RecDB
@@ -322,20 +498,37 @@ func (r *c20Runner) Step(t []string, o *Oracle) string {
 		}
 		r.pairs[string(unhx(t[1]))] = unhx(t[2])
 		return "ok"
-	case len(t) == 2 && t[0] == "begin" && !r.started:
+	case len(t) == 2 && t[0] == "blob" && !r.started:
+		if r.blobs == nil {
+			r.blobs = map[string][]byte{}
+		}
+		b := unhx(t[1])
+		r.blobs[string(crypto.SHA3Sum256(b))] = b
+		return "ok"
+	case len(t) == 2 && (t[0] == "begin" || t[0] == "begin-obj") && !r.started:
 		if r.pairs == nil {
 			r.pairs = map[string][]byte{}
 		}
 		r.started = true
-		r.src = c20BuildSource(r.pairs)
+		r.obj = t[0] == "begin-obj"
+		r.src = c20BuildSource(r.pairs, r.obj, r.blobs)
 		r.dst = &c20RecDB{Database: db.NewMapDB(), sets: map[db.BucketID]map[string][]byte{}}
 		r.b = merkle.NewBuilder(r.dst)
-		tr := ompt.NewImmutable(r.b.Database(), r.src.root)
-		tr.Resolve(r.b)
+		if r.obj {
+			ompt.NewImmutableForObject(r.b.Database(), r.src.root, c20ObjType).Resolve(r.b)
+			o.Count("object-trie")
+		} else {
+			ompt.NewImmutable(r.b.Database(), r.src.root).Resolve(r.b)
+			o.Count("bytes-trie")
+		}
 		o.Count(fmt.Sprintf("source-nodes-%s", c20Bucket(len(r.src.nodes))))
 		o.Check(bytes.Equal(r.src.root, unhx(t[1])) || (len(r.src.root) == 0 && t[1] == "-"), "source-root-differs-from-generator", "root %x vs op %s", r.src.root, t[1])
 		return r.render("ok")
-	case len(t) == 2 && t[0] == "data" && r.started:
+	case len(t) == 2 && (t[0] == "data" || t[0] == "datab") && r.started:
+		bucket := db.MerkleTrie
+		if t[0] == "datab" {
+			bucket = db.BytesByHash
+		}
 		v := unhx(t[1])
 		h := crypto.SHA3Sum256(v)
 		requested := false
@@ -344,7 +537,7 @@ func (r *c20Runner) Step(t []string, o *Oracle) string {
 				requested = true
 			}
 		}
-		err := r.b.OnData(db.MerkleTrie, v)
+		err := r.b.OnData(bucket, v)
 		tag := "ok"
 		switch {
 		case err == merkle.ErrNoRequester:
@@ -363,22 +556,27 @@ func (r *c20Runner) Step(t []string, o *Oracle) string {
 			return r.render(tag)
 		}
 		// refs of an accepted payload, from the harness's own parser (cross-checks the model's decoder)
-		return r.render(tag) + " refs=" + c20RefsWire(v)
+		return r.render(tag) + " refs=" + c20RefsWire(v, r.obj)
 	case len(t) == 1 && t[0] == "finish" && r.started:
 		un := r.b.UnresolvedCount()
 		if err := r.b.Flush(true); err != nil {
 			return "err"
 		}
-		stored := r.dst.sets[db.MerkleTrie]
+		stored := map[string][]byte{}
+		for bkt, m := range r.dst.sets {
+			o.Check(bkt == db.MerkleTrie || (r.obj && bkt == db.BytesByHash) || len(m) == 0, "stored-in-foreign-bucket", "bucket %q received %d entries", bkt, len(m))
+			for k, v := range m {
+				stored[k] = v
+				_, isBlob := r.src.blobs[k]
+				o.Check(isBlob == (bkt == db.BytesByHash), "stored-in-wrong-bucket", "key %x stored in bucket %q", k, bkt)
+			}
+		}
 		// oracle 1: nothing but requested data is stored: every stored key is the hash of its
-		// value and is a node of the source trie
+		// value and is a node (or referenced blob) of the trusted state
 		for k, v := range stored {
 			o.Check(bytes.Equal(crypto.SHA3Sum256(v), []byte(k)), "stored-key-is-hash-of-value", "stored %x is not sha3 of its value", k)
 			_, ok := r.src.nodes[k]
-			o.Check(ok, "stored-unrequested-data", "stored key %x is not a node of the trusted trie", k)
-		}
-		for b, m := range r.dst.sets {
-			o.Check(b == db.MerkleTrie || len(m) == 0, "stored-in-foreign-bucket", "bucket %q received %d entries", b, len(m))
+			o.Check(ok, "stored-unrequested-data", "stored key %x is not part of the trusted state", k)
 		}
 		// oracle 2: no outstanding requests <=> the store holds the complete state
 		complete := len(stored) == len(r.src.nodes)
@@ -390,15 +588,32 @@ func (r *c20Runner) Step(t []string, o *Oracle) string {
 		o.Check((un == 0) == complete, "unresolved-zero-iff-complete", "unresolved=%d but complete=%v (stored %d of %d nodes)", un, complete, len(stored), len(r.src.nodes))
 		if un == 0 {
 			// oracle 3: rebuilt state has the trusted root and contents (fresh trie over the raw destination db)
-			tr := ompt.NewImmutable(r.dst.Database, r.src.root)
 			got := map[string][]byte{}
-			for it := tr.Iterator(); it.Has(); it.Next() {
-				v, k, err := it.Get()
-				if err != nil {
-					o.Check(false, "rebuilt-trie-unreadable", "iterator error %v", err)
-					break
+			if r.obj {
+				tr := ompt.NewImmutableForObject(r.dst.Database, r.src.root, c20ObjType)
+				bkb, _ := r.dst.Database.GetBucket(db.BytesByHash)
+				for it := tr.Iterator(); it.Has(); it.Next() {
+					ob, k, err := it.Get()
+					if err != nil {
+						o.Check(false, "rebuilt-trie-unreadable", "iterator error %v", err)
+						break
+					}
+					got[string(k)] = ob.Bytes()
+					if h := c20ValRef(ob.Bytes()); h != nil {
+						bv, _ := bkb.Get(h)
+						o.Check(bytes.Equal(bv, r.src.blobs[string(h)]) && bv != nil, "rebuilt-state-misses-referenced-data", "sync finished but data %x referenced by key %x is not in the store", h[:4], k)
+					}
 				}
-				got[string(k)] = v
+			} else {
+				tr := ompt.NewImmutable(r.dst.Database, r.src.root)
+				for it := tr.Iterator(); it.Has(); it.Next() {
+					v, k, err := it.Get()
+					if err != nil {
+						o.Check(false, "rebuilt-trie-unreadable", "iterator error %v", err)
+						break
+					}
+					got[string(k)] = v
+				}
 			}
 			same := len(got) == len(r.pairs)
 			for k, v := range r.pairs {
